@@ -95,9 +95,16 @@ def run_property(pid, tier, repo):
         try:
             inst_count = max(inst_count, audit(ctx, rep))
             fn_count = max(fn_count, len(ctx.facts.fatfs_fns()))
-            for modname in spec['modules']:
-                mod = importlib.import_module('rules.' + modname)
-                mod.run(ctx, rep)
+            for modspec in spec['modules']:
+                if isinstance(modspec, (tuple, list)):
+                    modname, only = modspec[0], tuple(modspec[1])
+                    mod = importlib.import_module('rules.' + modname)
+                    sub = Report(pid, cfg)
+                    mod.run(ctx, sub)
+                    rep.merge_rules(sub, only)
+                else:
+                    mod = importlib.import_module('rules.' + modspec)
+                    mod.run(ctx, rep)
             # positive controls / floors only in the configuration that has them
             for rule in spec.get('controls', ()):
                 if rule not in rep.controls_hit:
